@@ -14,6 +14,14 @@ arbitrary functions: the theorems say WHICH message and WHICH key the code hands
 apart from the nonce) and `env` (fees, system-contract checks) are arbitrary as well. The digest field lists
 `txSignSpec`/`txHashSpec` are regenerated from the source on every run (`Aergo.Gen.Enc`).
 
+Since the deepening round (three defects found by it, all repaired in /repo: bd63ef2d header fork version, d1ee2c8f
+pool dump, 7dc29266 verified account) the statements also cover: the chain id a block's HEADER carries
+(`chain_id_bound`: every executed transaction is bound to the hash of this chain's id in the version the NODE is
+configured with for the block's number — `header_version_check_needed` shows the check of bd63ef2d is what makes it
+true), the pool as trust anchor (`pool_invariant` over every history of a pool incl. the start-up dump,
+`shortcut_sound`: the block-level short-cut resolved against such a pool, `load_verify_needed`), and the node's own
+blocks (`produced_block_authorised`, `produced_nonces_trace`: the block factory's gathering from such a pool).
+
 A rejected transaction / block yields no new world at all (`Except.error`): "changes state only if" is the
 statement that an `.ok` result implies the gate conditions, which is what the theorems below say.
 All statements are for every world, every transaction list, every branch (list of blocks) — no size bound. The
@@ -413,7 +421,195 @@ theorem reoffer_refuses_executed (env : Env) (acceptCid : Bytes) (W : World) (in
   rw [wrap64, Nat.mod_eq_of_lt hlt] at this
   omega
 
-/-! ### 9. Non-vacuity: a concrete branch (tests on sample values, identity hash, ideal signatures) -/
+/-! ### 9. The chain id of the block header (repair bd63ef2d) -/
+
+/-- A chain of received blocks is a branch in the sense of `runBranch`, with the chain-id hash of block `j` = hash of
+the chain id its header carries: every branch theorem above (`executed_nonces_seq`, `no_hash_twice`, …) applies to it. -/
+theorem chain_is_branch (env : Env) (body : Body) (hc : HdrCid → Bytes) (cfgVer : Nat → Nat) (hdrOf : Nat → HdrCid)
+    (useMempool : Bool) (hitOf : Nat → Tx → Bool) (i : Nat) (best : HdrCid) (W W' : World) (blocks : List (List Tx))
+    (hlog : List (Nat × LogEntry))
+    (h : runChain H Verify env body hc cfgVer hdrOf useMempool hitOf i best W blocks = some (W', hlog)) :
+    runBranch H Verify env body (fun j => hc (hdrOf j)) useMempool hitOf i W blocks = some (W', hlog.map (·.2)) :=
+  (runChainWith_ok H Verify (fun _ _ _ _ ha => (acceptHeader_iff.mp ha).1) h).1
+
+/-- **chain_id_bound.** Along any chain of blocks the node connects on top of a block carrying chain id `best` (in
+particular: from genesis), every executed transaction sits in the block it is logged for and its `ChainIdHash` is the
+hash `hc` of THIS chain's identifier (`best.rest`: magic, net flags, consensus) in the hard-fork version the node's own
+configuration gives for that block's number (`cfgVer j`) — whatever the block's producer wrote into the header. -/
+theorem chain_id_bound (env : Env) (body : Body) (hc : HdrCid → Bytes) (cfgVer : Nat → Nat) (hdrOf : Nat → HdrCid)
+    (useMempool : Bool) (hitOf : Nat → Tx → Bool) (i : Nat) (best : HdrCid) (W W' : World) (blocks : List (List Tx))
+    (hlog : List (Nat × LogEntry))
+    (h : runChain H Verify env body hc cfgVer hdrOf useMempool hitOf i best W blocks = some (W', hlog)) :
+    ∀ p ∈ hlog, (∃ b, blocks[p.1 - i]? = some b ∧ p.2.tx ∈ b) ∧ hdrOf p.1 = ⟨cfgVer p.1, best.rest⟩ ∧
+      p.2.tx.chainIdHash = hc ⟨cfgVer p.1, best.rest⟩ := by
+  intro p hp
+  obtain ⟨_, _, hin, hv, ⟨prev, hprev, ha⟩⟩ :=
+    (runChainWith_ok H Verify (fun _ _ _ _ ha => (acceptHeader_iff.mp ha).1) h).2 p hp
+  obtain ⟨hrest, hver⟩ := acceptHeader_iff.mp ha
+  have hh : hdrOf p.1 = ⟨cfgVer p.1, best.rest⟩ := by
+    cases hq : hdrOf p.1 with
+    | mk v r =>
+      rw [hq] at hrest hver
+      simp only at hrest hver
+      rw [hver, hrest, hprev]
+  refine ⟨hin, hh, ?_⟩
+  rw [← hh]
+  exact (chainid_bound H _ _ _ _ hv).1
+
+/-- Without the version comparison (the code before bd63ef2d: `ValidChildOf` only) the statement is false: the
+transactions of an accepted block are bound to whatever version the block's producer put into the header. -/
+theorem chain_id_bound_unchecked_partial (env : Env) (body : Body) (hc : HdrCid → Bytes) (cfgVer : Nat → Nat) (hdrOf : Nat → HdrCid)
+    (useMempool : Bool) (hitOf : Nat → Tx → Bool) (i : Nat) (best : HdrCid) (W W' : World) (blocks : List (List Tx))
+    (hlog : List (Nat × LogEntry))
+    (h : runChainWith H Verify acceptHeaderUnchecked env body hc cfgVer hdrOf useMempool hitOf i best W blocks = some (W', hlog)) :
+    ∀ p ∈ hlog, (hdrOf p.1).rest = best.rest ∧ p.2.tx.chainIdHash = hc (hdrOf p.1) := by
+  have hacc : ∀ cv b n h, acceptHeaderUnchecked cv b n h = true → h.rest = b.rest := by
+    intro cv b n h ha
+    unfold acceptHeaderUnchecked validChildOf at ha
+    exact (beq_iff_eq.mp ha).symm
+  intro p hp
+  obtain ⟨_, _, _, hv, ⟨prev, hprev, ha⟩⟩ := (runChainWith_ok H Verify hacc h).2 p hp
+  exact ⟨by rw [hacc _ _ _ _ ha, hprev], (chainid_bound H _ _ _ _ hv).1⟩
+
+/-! ### 10. The pool as trust anchor (repair d1ee2c8f) and the node's own blocks (repair 7dc29266) -/
+
+/-- **pool_invariant.** Whatever a node's pool holds — after any history of submissions, re-offers after reorganisations,
+start-up loads of the dump file and removals — went through the pool's gate when it came in. -/
+theorem pool_invariant (env : Env) (extra : World → Bytes → Tx → Option Nat) (P : List PEntry)
+    (h : PoolReach H Verify env extra P) : ∀ e ∈ P, Gated H Verify env e := by
+  induction h with
+  | empty => intro e he; cases he
+  | @offer P W acceptCid t acc _ hadm ih =>
+    intro e he
+    rcases List.mem_append.mp he with h1 | h2
+    · exact ih e h1
+    · simp only [List.mem_singleton] at h2
+      subst h2
+      obtain ⟨_, hv, hver, hacc, _⟩ := pool_gate H Verify env acceptCid W _ extra t acc hadm
+      exact ⟨acceptCid, W.led.names, hv, hver, hacc⟩
+  | @load P W acceptCid t acc _ hadm ih =>
+    intro e he
+    rcases List.mem_append.mp he with h1 | h2
+    · exact ih e h1
+    · simp only [List.mem_singleton] at h2
+      subst h2
+      obtain ⟨_, hv, hver, hacc, _⟩ := pool_gate H Verify env acceptCid W _ extra t acc hadm
+      exact ⟨acceptCid, W.led.names, hv, hver, hacc⟩
+  | drop keep _ ih =>
+    intro e he
+    exact ih e (List.mem_filter.mp he).1
+
+/-- **shortcut_sound.** The mempool short-cut of `sig_gate` resolved against a pool with ANY history: a transaction of an
+accepted block either had `Verify` evaluated to true on (its sender key / the owner of its sender name, its signing
+digest, its signature) by the block-level verifier, or — address senders, node consulting its pool — the pool holds an
+entry with the same carried hash that passed the pool's gate; that entry's digest input is then either the very same
+byte string as the transaction's, or the two are an explicit SHA-256 collision. -/
+theorem shortcut_sound (env : Env) (extra : World → Bytes → Tx → Option Nat) (P : List PEntry)
+    (hP : PoolReach H Verify env extra P) (body : Body) (cid : Bytes) (useMempool : Bool)
+    (W W' : World) (txs : List Tx) (log : List LogEntry)
+    (h : execBlock H Verify env body cid useMempool (fun t => inPool P t.hash) W txs = .ok (W', log)) :
+    ∀ t ∈ txs, Verify (blockKey W.led.names t) (H (signInput t)) t.sign = true ∨
+      (t.named = false ∧ ∃ e ∈ P, e.tx.hash = t.hash ∧ Gated H Verify env e ∧
+        (hashInput e.tx = hashInput t ∨ Collision H (hashInput e.tx) (hashInput t))) := by
+  intro t ht
+  obtain ⟨⟨_, hor⟩, hv⟩ := sig_gate H Verify env body cid useMempool _ W W' txs log h t ht
+  rcases hor with hver | ⟨_, hnn, hhit⟩
+  · exact Or.inl hver
+  · right
+    refine ⟨hnn, ?_⟩
+    unfold inPool at hhit
+    obtain ⟨e, he, heq⟩ := List.any_eq_true.mp hhit
+    have hhash : e.tx.hash = t.hash := by simpa using heq
+    have hg := pool_invariant H Verify env extra P hP e he
+    refine ⟨e, he, hhash, hg, ?_⟩
+    obtain ⟨cid', ns, hve, _, _⟩ := hg
+    have h1 := (chainid_bound H _ _ _ _ hv).2
+    have h2 := (chainid_bound H _ _ _ _ hve).2
+    by_cases hin : hashInput e.tx = hashInput t
+    · exact Or.inl hin
+    · exact Or.inr ⟨hin, by rw [← h1, ← h2, hhash]⟩
+
+/-- The short-cut for 33-byte senders, without any assumption on signature lengths: the SAME BYTE STRING the block's
+transaction hashes to its identifier (`hashInput t` = signing input followed by the signature) was authorised by the key
+of `t`'s own sender account — as the pooled entry's split of these bytes into signed part and signature (DER signatures
+are 70–72 bytes and the digest input has no length prefixes, so only equal signature lengths give `Verify` on `t`'s own
+split: `sig_gate_hit`). -/
+theorem sig_gate_hit_bytes (mx : Nat) (cid cid' : Bytes) (pub : Bool) (ns : Names) (t p : Tx)
+    (ht : validate H mx cid pub t = none) (hp : validate H mx cid' pub p = none)
+    (hpv : Verify (poolKey ns p) (H (signInput p)) p.sign = true)
+    (hhit : p.hash = t.hash)
+    (ha : t.account.length = 33) (ha' : p.account.length = 33) :
+    Collision H (hashInput p) (hashInput t) ∨
+    (signInput p ++ p.sign = signInput t ++ t.sign ∧ Verify t.account (H (signInput p)) p.sign = true) := by
+  have h1 := (chainid_bound H mx cid pub t ht).2
+  have h2 := (chainid_bound H mx cid' pub p hp).2
+  by_cases heq : hashInput p = hashInput t
+  · right
+    have hacc := account_of_hashInput heq ha' ha
+    have hk : poolKey ns p = t.account := by
+      unfold poolKey Tx.named
+      rw [if_neg (by simp [ha', nameLength]), hacc]
+    rw [hk] at hpv
+    refine ⟨?_, hpv⟩
+    rw [← hashInput_eq, ← hashInput_eq]
+    exact heq
+  · left
+    exact ⟨heq, by rw [← h1, ← h2, hhit]⟩
+
+/-- **produced_block_authorised.** The node's OWN block (block factory: candidates from the pool, `executeTx` with the
+verified account, committed without any block-level signature check): every transaction in it is an entry of the pool
+— so it passed the pool's gate (`Validate`, `Verify` on the key it is filed under) —, passed `Validate` again for the
+block's chain-id hash, and, for a name sender, the address the pool verified the signature against is — at THIS
+attempt, every attempt (repair 7dc29266) — still the account the name resolves to, the one whose nonce and balance it uses. -/
+theorem produced_block_authorised (env : Env) (extra : World → Bytes → Tx → Option Nat) (P : List PEntry)
+    (hP : PoolReach H Verify env extra P) (body : Body) (cid : Bytes) (W : World) (cands : List PEntry)
+    (hc : ∀ p ∈ cands, p ∈ P) :
+    ∀ e ∈ (produceBlock H env body cid W cands).2, ∃ p ∈ P, p.tx = e.tx ∧ Gated H Verify env p ∧
+      validate H env.maxAER cid env.isPublic e.tx = none ∧
+      (e.tx.named = true → p.acc = e.account) ∧
+      (e.tx.named = false → Verify e.tx.account (H (signInput e.tx)) e.tx.sign = true) := by
+  intro e he
+  obtain ⟨p, hp, htx, hv, hver, _⟩ := (gatherTxs_ok H (env := env) (body := body) (cid := cid) (cands := cands) (W := W)).2 e he
+  have hg := pool_invariant H Verify env extra P hP p (hc p hp)
+  refine ⟨p, hc p hp, htx, hg, hv, ?_, ?_⟩
+  · intro hn
+    have hvo : verifiedOf p = p.acc := by unfold verifiedOf; rw [htx, hn]; rfl
+    rw [hvo] at hver
+    rcases hver with hnil | hacc
+    · -- an empty list account: the pool files under the sender field when there is no verified account, and `Validate`
+      -- refuses an empty sender field
+      exfalso
+      obtain ⟨_, ns, _, _, hacc⟩ := hg
+      have hne : e.tx.account ≠ [] := by
+        intro hemp
+        unfold validate at hv
+        rw [if_neg] at hv
+        · rw [if_neg] at hv
+          · rw [if_pos (by simp [hemp])] at hv; cases hv
+          · intro hs; rw [if_pos hs] at hv; cases hv
+        · intro hcid; rw [if_pos hcid] at hv; cases hv
+      rw [hnil, htx, hn] at hacc
+      simp only [if_true] at hacc
+      unfold listAccount at hacc
+      split at hacc
+      · exact hne hacc.symm
+      · rename_i hk
+        rw [← hacc] at hk
+        exact hk rfl
+    · exact hacc
+  · intro hn
+    obtain ⟨_, ns, _, hverify, _⟩ := hg
+    have : poolKey ns p.tx = e.tx.account := by unfold poolKey; rw [htx, hn]; rfl
+    rw [this, htx] at hverify
+    exact hverify
+
+/-- The nonce bookkeeping of an own block is that of any block: its log is a nonce trace from the parent's nonces
+(so `Lemmas.trace_seq` / `trace_no_repeat` apply to chains containing own blocks as well). -/
+theorem produced_nonces_trace (env : Env) (body : Body) (cid : Bytes) (W : World) (cands : List PEntry) :
+    Trace W.nonce (produceBlock H env body cid W cands).2 (produceBlock H env body cid W cands).1.nonce :=
+  (gatherTxs_ok H (env := env) (body := body) (cid := cid) (cands := cands) (W := W)).1
+
+/-! ### 11. Non-vacuity: a concrete branch (tests on sample values, identity hash, ideal signatures) -/
 
 -- evaluating the model on sample values by `decide` needs a deeper elaborator recursion limit (not a proof device)
 set_option maxRecDepth 100000
@@ -471,5 +667,65 @@ example : errOf (poolAdmit id idealVerify envT cid0 { w0 with nonce := fun _ => 
     = some (.s .nonceLow) := by decide
 example : errOf (poolAdmit id idealVerify envT cid0 w0 (fun _ => false) stdExtra (xfer kA kB kB 1 5)) = some .sig := by decide
 example : errOf (poolAdmit id idealVerify envT [8] w0 (fun _ => false) stdExtra (xfer kA kB kA 1 5)) = some (.v .chainId) := by decide
+
+/-! ### 12. The three repairs are needed (tests on sample values: the unrepaired variants break the statements) -/
+
+private def hcT (c : HdrCid) : Bytes := le 4 c.version ++ c.rest
+private def gT : HdrCid := ⟨0, [7]⟩
+/-- a transfer bound to the chain id hash `c` -/
+private def xferC (c : Bytes) (a b k : Bytes) (n amt : Nat) : Tx :=
+  let t : Tx := { nonce := n, account := a, recipient := b, amount := [UInt8.ofNat amt], payload := [], gasLimit := 0, gasPrice := [],
+                  type := 4, chainIdHash := c, sign := [], hash := [], size := 100, gov := none, cmd := .none }
+  let t1 := { t with sign := sigEnc k (signInput t) }
+  { t1 with hash := hashInput t1 }
+
+private def cidsOf (r : Option (World × List (Nat × LogEntry))) : Option (List (Nat × Bytes)) :=
+  r.map (fun x => x.2.map (fun p => (p.1, p.2.tx.chainIdHash)))
+
+/-- Hypotheses of `chain_id_bound` are satisfiable (node configured with version 5 everywhere, block 1 carries version 5
+and a transfer bound to hash(chain id ‖ 5)); the same block with a version-4 header and a transfer bound to
+hash(chain id ‖ 4) is refused … -/
+example : cidsOf (runChain id idealVerify envT stdBody hcT (fun _ => 5) (fun _ => ⟨5, [7]⟩) false (fun _ _ => false) 1 gT w0
+    [[xferC (hcT ⟨5, [7]⟩) kA kB kA 1 5]]) = some [(1, hcT ⟨5, [7]⟩)] := by decide
+example : (runChain id idealVerify envT stdBody hcT (fun _ => 5) (fun _ => ⟨4, [7]⟩) false (fun _ _ => false) 1 gT w0
+    [[xferC (hcT ⟨4, [7]⟩) kA kB kA 1 5]]).isNone = true := by decide
+
+/-- … **header_version_check_needed**: with the header check as it was before bd63ef2d (`ValidChildOf` only) it is
+accepted, and the executed transaction is bound to another version of the chain id than the node's configuration
+prescribes for block 1: `chain_id_bound` fails for `runChainWith acceptHeaderUnchecked`. -/
+theorem header_version_check_needed :
+    cidsOf (runChainWith id idealVerify acceptHeaderUnchecked envT stdBody hcT (fun _ => 5) (fun _ => ⟨4, [7]⟩) false
+      (fun _ _ => false) 1 gT w0 [[xferC (hcT ⟨4, [7]⟩) kA kB kA 1 5]]) = some [(1, hcT ⟨4, [7]⟩)] ∧
+    hcT ⟨4, [7]⟩ ≠ hcT ⟨(fun _ => 5) 1, gT.rest⟩ := by decide
+
+/-- another chain's id (other `rest`) is refused with or without the version check -/
+example : (runChainWith id idealVerify acceptHeaderUnchecked envT stdBody hcT (fun _ => 5) (fun _ => ⟨5, [8]⟩) false
+    (fun _ _ => false) 1 gT w0 [[xferC (hcT ⟨5, [8]⟩) kA kB kA 1 5]]).isNone = true := by decide
+
+/-- **load_verify_needed**: a dump record handled as before d1ee2c8f (`put` without `verifyTx`) enters the pool although
+it is signed by another key than its sender's and bound to another chain id hash: such an entry is not `Gated`, so
+`pool_invariant` fails for a pool with the unrepaired `load`. The repaired `poolLoad` refuses both. -/
+theorem load_verify_needed :
+    okOf (poolLoadUnverified envT w0 (fun _ => false) stdExtra (xfer kA kB kB 1 5)) = some kA ∧
+    idealVerify kA (signInput (xfer kA kB kB 1 5)) (xfer kA kB kB 1 5).sign = false ∧
+    okOf (poolLoadUnverified envT w0 (fun _ => false) stdExtra (xferC [8] kA kB kA 1 5)) = some kA ∧
+    errOf (poolLoad id idealVerify envT cid0 w0 (fun _ => false) stdExtra (xfer kA kB kB 1 5)) = some .sig ∧
+    errOf (poolLoad id idealVerify envT cid0 w0 (fun _ => false) stdExtra (xferC [8] kA kB kA 1 5)) = some (.v .chainId) := by
+  decide
+
+/-- The node's own block (test): name "n" was registered to A when the pool admitted a transfer in that name signed by A
+(filed under A, verified account A); meanwhile the name moved to B. The block factory refuses the entry — at every
+attempt — while an entry whose verified account has been dropped (what `executeTx` did to the pool's object before
+7dc29266 at the first attempt) executes on B's account: **verified_account_needed**. -/
+private def wNB : World := { w0 with led := { w0.led with names := fun n => if n = [110] then some ⟨kB, kB⟩ else none } }
+theorem verified_account_needed :
+    (produceBlock id envT stdBody cid0 wNB [⟨xfer [110] kA kA 1 5, kA⟩]).2 = [] ∧
+    ((produceBlock id envT stdBody cid0 wNB [⟨xfer [110] kA kA 1 5, kA⟩, ⟨xfer [110] kA kA 1 5, kA⟩]).2 = []) ∧
+    (executeTx id envT stdBody cid0 wNB [] (xfer [110] kA kA 1 5)).toOption.map (fun r => (r.2.account, r.1.nonce kB)) = some (kB, 1) := by
+  decide
+
+/-- … and with the name still A's the factory includes it (the hypotheses of `produced_block_authorised` are satisfiable). -/
+example : ((produceBlock id envT stdBody cid0 wN [⟨xfer [110] kB kA 1 5, kA⟩, ⟨xfer kB kA kB 1 7, kB⟩]).2.map
+    (fun e => (e.account, e.tx.nonce))) = [(kA, 1), (kB, 1)] := by decide
 
 end Aergo.Props.C04
